@@ -234,6 +234,7 @@ type lexExec struct {
 	next, backup, errorf *ssa.Function
 	steps, maxSteps      int
 	aborted              string
+	nest                 int
 	unknownPreds         map[string]bool
 }
 
@@ -243,6 +244,8 @@ type lexFrame struct {
 	depth int
 	seen  map[string]int
 	out   *[]lexOut
+	// distinct abstract values each phi has taken in this frame (widening of loop counters)
+	phiVals map[*ssa.Phi]map[string]bool
 }
 
 func (x *lexExec) val(fr *lexFrame, v ssa.Value) aval {
@@ -309,6 +312,12 @@ func (x *lexExec) block(fr *lexFrame, b, from *ssa.BasicBlock, env map[ssa.Value
 	if x.aborted != "" {
 		return
 	}
+	x.nest++
+	defer func() { x.nest-- }()
+	if x.nest > 4000 {
+		x.aborted = "path depth exhausted in " + fr.f.Name() + " (a loop whose state never repeats)"
+		return
+	}
 	if lexDebug {
 		fmt.Printf("  [%s b%d start=%d n=%d cls=%s]\n", fr.f.Name(), b.Index, start, st.n, st.cls)
 	}
@@ -338,7 +347,22 @@ func (x *lexExec) block(fr *lexFrame, b, from *ssa.BasicBlock, env map[ssa.Value
 					break
 				}
 				if pi >= 0 {
-					vals[ph] = x.val(&lexFrame{env: env}, ph.Edges[pi])
+					nv := x.val(&lexFrame{env: env}, ph.Edges[pi])
+					// widening: an integer that keeps changing around a loop (a character counter) is not part of
+					// the rune-class abstraction; after a few distinct values it becomes "some integer"
+					if nv.kind != aUnknown {
+						if fr.phiVals == nil {
+							fr.phiVals = map[*ssa.Phi]map[string]bool{}
+						}
+						if fr.phiVals[ph] == nil {
+							fr.phiVals[ph] = map[string]bool{}
+						}
+						fr.phiVals[ph][fmt.Sprintf("%d:%d:%v", nv.kind, nv.i, nv.b)] = true
+						if len(fr.phiVals[ph]) > 6 {
+							nv = aval{kind: aUnknown}
+						}
+					}
+					vals[ph] = nv
 				}
 			}
 			for k, v := range vals {
